@@ -53,7 +53,7 @@ pub fn replay(_id: &str, path: &str) -> i32 {
         let mut ictx = asm.ictx();
         if let Some(cs) = case["call_stack"].as_array() {
             for x in cs {
-                ictx.call_stack.push(x.as_u64().unwrap() as usize);
+                ictx.call_stack.push(x.as_u64().unwrap() as _);
             }
         }
         let mut vm = emulator_8086_lib::VM::new();
